@@ -43,6 +43,8 @@ def run(prog: Program, rep: Report, tier: str):
     call_impl(prog, rep)
     collate_callers(prog, rep)
     pad_sequences(prog, rep)
+    pad_stateless(prog, rep)
+    compose_config(prog, rep)
     names.check(prog, rep, FILES, clause="C18.G1", floor=15)
 
 
@@ -221,6 +223,65 @@ def collate_callers(prog: Program, rep: Report):
                 rep.decide(not problems, "G9.ctx-identity", fi, "call:collate", "batch = collate(..., ctx=<local>) and that "
                            "local is what is returned as context", "; ".join(problems), line=c.lineno, clause="C18.2")
     rep.floor("call sites of the collate interface", n_sites, 2)
+
+
+def compose_config(prog: Program, rep: Report):
+    rep.rule("G9.compose-config", "KDComposeCollator.__call__ returns, on every path, _call_impl(batch, collators=self.collators, "
+             "dataset_mode=self.dataset_mode, return_ctx=self.return_ctx): the members run under the composite's own dataset mode "
+             "and context setting.  Calling a member collator as a whole (member(batch)) lets it collate with *its* configuration: "
+             "another item layout, or a bare batch where (batch, ctx) was configured")
+    fi = prog.method("KDComposeCollator", "__call__", own=True, required=False)
+    if fi is None:
+        return
+    fa = fa_of(prog, fi)
+    rets = fa.returns()
+    ok = bool(rets)
+    why = []
+    for n, t in rets:
+        if t is None or t[0] != "call":
+            ok = None if ok else ok
+            why.append("a return of unrecognised shape")
+            continue
+        f = t[1]
+        if f in (("self", "_call_impl"), ("attr", ("param", fa.self_name), "_call_impl")) or (
+                f[0] == "global" and f[1].endswith("_call_impl")):
+            kw = {k_: v_ for k_, v_ in t[3] if not str(k_).startswith("#")}
+            pos = list(t[2])
+            names_ = ["batch", "collators", "dataset_mode", "return_ctx"]
+            for i_, v_ in enumerate(pos):
+                if i_ < len(names_):
+                    kw.setdefault(names_[i_], v_)
+            want = {"collators": ("self", "collators"), "dataset_mode": ("self", "dataset_mode"), "return_ctx": ("self", "return_ctx")}
+            for k_, v_ in want.items():
+                if kw.get(k_) != v_:
+                    ok = False
+                    why.append(f"_call_impl receives {k_}={show(kw.get(k_)) if kw.get(k_) else 'nothing'}, not self.{k_}")
+        else:
+            leaves_ = {x for x in leaves(f)}
+            member_like = any(x[0] == "self" for x in leaves_) or any(x[0] == "var" and x[1].startswith(f"{fa.self_name}.")
+                                                                      for x in leaves_)
+            if member_like:
+                ok = False
+                why.append(f"a path returns {show(t)[:60]}: a member collator is called as a whole and collates with its own "
+                           f"dataset_mode / return_ctx")
+            else:
+                ok = None if ok else ok
+                why.append(f"a return calls {show(f)[:40]} (not decided)")
+    rep.decide(ok, "G9.compose-config", fi, "returns-call_impl", "every return goes through _call_impl with the composite's configuration",
+               "; ".join(why), line=fi.node.lineno, clause="C18.1")
+
+
+def pad_stateless(prog: Program, rep: Report):
+    from ..rules.hooks import stores_on_self
+    rep.rule("G8.collate-stateless", "PadSequencesCollator.collate (private helpers inlined) writes nothing onto the collator: every "
+             "padded tensor is created in the call that returns it.  A buffer kept on the collator is zeroed once and then "
+             "overwritten only where the next batch has content: padding positions carry values of earlier batches, and a batch "
+             "already handed out changes when the next one is collated")
+    fi = prog.method("PadSequencesCollator", "collate", own=True)
+    st = stores_on_self(fa_of(prog, fi))
+    rep.decide(not st, "G8.collate-stateless", fi, "no-store-on-self", "collate writes nothing onto the collator",
+               "; ".join(f"{w} (line {ln})" for ln, w in st[:3]) + ": PadSequencesCollator.collate keeps state on the collator "
+               "between batches", line=st[0][0] if st else fi.node.lineno, clause="C18.3")
 
 
 def pad_sequences(prog: Program, rep: Report):
